@@ -493,18 +493,24 @@ def run_check(prop, tier, seed=None, workers=None, runs=None, wall=None):
     print('reach probes :', dict(agg['probes']))
     for line in known_lines:
         print(line)
+    # the machinery's own failures are reported as such; they decide the exit status (2) only
+    # when no replayable violation was found next to them - a library that misbehaves often
+    # trips the harness in other runs as well, and the violation is the finding
+    harness_problem = False
     if harness_errors:
         print('HARNESS-ERROR: %d run(s) raised inside the harness; first:' % len(harness_errors))
         print(harness_errors[0][1])
-        return 2
+        harness_problem = True
     if nondet:
         print('HARNESS-ERROR: event digests differ between two executions of run(s) %s'
               % nondet[:10])
-        return 2
+        harness_problem = True
     if replay_problems:
         p = replay_problems[0]
         print('HARNESS-ERROR: replay %s did not reproduce in a fresh process '
               '(reproduced=%s digest_identical=%s)\n%s' % p)
+        harness_problem = True
+    if harness_problem and not violation_lines and not regress_hits:
         return 2
     for path, v in regress_hits:
         print('  regression: oracle=%s subject=%s\n  detail=%s' % (v['oracle'], v['subject'],
